@@ -3,15 +3,28 @@
 PROP = {
     "id": "C10",
     "level": "proof",
-    "technique": "Lean 4 proof (conservation of items as list permutations through merge / remove-if / extract in the hash-table model) + k-th-failure sweeps of bulk operations and merges on the real containers",
-    "level_text": ("Kernel-checked theorems over the hash-table model for every bucket kind, hash function and number of coexisting generations: "
+    "technique": "Lean 4 proof (conservation of items as list permutations through merge / remove-if / extract in the hash-table model; B-tree range insert / remove-if / merge / extract / re-insert under every fault schedule) + k-th-failure sweeps of bulk operations and merges on the real containers",
+    "level_text": ("Arrays: kernel-checked theorem over the fault-parametric model of momo::Array / ArrayShifter (Momo.ArrF): for every configuration, valid state, index, "
+                   "count, range, value argument (incl. aliases) and every fault schedule, InsertVar / Insert (3 forms) / Remove (2 forms) either complete with the "
+                   "fault-free state or throw leaving the representation invariant, count within capacity, exactly count constructed item objects, exactly the own "
+                   "block outstanding, nothing destroyed or deallocated twice, and the count between the old and the intended one. "
+                   "Kernel-checked theorems over the hash-table model for every bucket kind, hash function and number of coexisting generations: "
                    "MergeTo conserves src + dst as a multiset, leaves exactly the refused elements in the source, keeps destination keys distinct and "
                    "both tables valid; Remove(pred) removes exactly the selected elements; extraction transfers exactly one element. On the real "
                    "containers every bulk operation (range insert, remove-if, positional array insert/remove, merges hash<->hash, tree<->tree, "
                    "tree<->hash, extract + re-insert) is run with the k-th allocation / element copy / functor call failing for every k, checking "
-                   "validity, subset, uniqueness, conservation, 'refused stays in the handle/source' and that movable elements are never copied."),
-    "level_note": ("Partial: merges involving a B-tree and the fault behaviour inside a merge are covered by the sweeps (and C02's model for the "
-                   "fault-free tree merge), not by a theorem with faults; the model's mergeTo has no fault argument. Trusted: Lean kernel + standard "
+                   "validity, subset, uniqueness, conservation, 'refused stays in the handle/source' and that movable elements are never copied. "
+                   "B-trees (Momo.BTreeF, the fault layer of C04 on the C02 model): for every well-formed sorted TreeSet / TreeMap, node capacity, item category (outside "
+                   "documented exception 5) and EVERY fault schedule: Insert(range) ends as the fault-free Insert of a prefix of the range, node for node (hence valid, sorted, "
+                   "unique keys unique, old elements kept, only range elements added); Remove(filter) ends valid and sorted with a sub-sequence that still has every element "
+                   "not satisfying the filter; MergeTo by every path (swap into empty, pvMergeFast with roll-back of its wrappers, pvMergeTo, pvMergeToLinear, non-empty "
+                   "traits) leaves at every stopping point both trees valid and sorted with source + destination a permutation of what they held, the source only losing "
+                   "and the destination only gaining elements, and equals the reference merge when nothing was thrown; extraction and node re-insertion move the element "
+                   "(item count of the ledger unchanged), a refused or failed re-insertion leaves the tree as it was; in all cases the ledger of live nodes / items / blocks "
+                   "moved exactly with what the containers own. Tied to the code by the c04_treefault correspondence (complete contents, node shapes and ledger after "
+                   "every faulted bulk operation and merge)."),
+    "level_note": ("Partial: merges between a B-tree and a hash table and the fault behaviour inside a hash-table merge are covered by the sweeps, not by a "
+                   "theorem with faults (the hash model's mergeTo has no fault argument); tree<->tree merges under faults are proved (Momo.BTreeF). Trusted: Lean kernel + standard "
                    "axioms, harness (g++, ASan/UBSan)."),
     "modules": ["Momo.Props.C10"],
     "theorems": [
@@ -19,10 +32,25 @@ PROP = {
         "Momo.HT.C10_merge_refused_stay",
         "Momo.HT.C10_removePred_exact",
         "Momo.HT.C10_extract_transfers",
+        "Momo.ArrF.C10_array_basic_every_fault",
+        "Momo.ArrF.C10_array_valid_means",
+        "Momo.ArrF.C10_shifter_stops_after_prefix",
+        "Momo.ArrF.C10_shifter_programs_are_the_loops",
+        "Momo.BTreeF.C10_tree_insertRange_basic",
+        "Momo.BTreeF.C10_tree_removeIf_basic",
+        "Momo.BTreeF.C10_tree_merge_conserves",
+        "Momo.BTreeF.C10_tree_extract_transfers",
+        "Momo.BTreeF.C10_tree_reinsert_refused_stays",
     ],
     "harnesses": [
         {"name": "c10_bulk", "src": "c10_bulk.cpp", "sanitize": "asan", "timeout_quick": 600},
         {"name": "c10_merge_model", "src": "c01_hash.cpp", "flags": ["-DVF_PART=0"]},
+        {"name": "c10_arrfault_2", "src": "c04_arrfault.cpp", "sanitize": "asan", "flags": ["-DAF_PART=2"], "timeout_quick": 600},
+        {"name": "c10_arrfault_3", "src": "c04_arrfault.cpp", "sanitize": "asan", "flags": ["-DAF_PART=3"], "timeout_quick": 600},
+        {"name": "c10_arrfault_4", "src": "c04_arrfault.cpp", "sanitize": "asan", "flags": ["-DAF_PART=4"], "timeout_quick": 600},
+    ] + [
+        {"name": "c10_treefault_%d" % k, "src": "c04_treefault.cpp", "sanitize": "asan", "flags": ["-DTF_PART=%d" % k], "timeout_quick": 600}
+        for k in range(1, 6)
     ],
     "rule": ("sweeps: Insert(range of 17) and Remove(pred) on HashSet (LimP4, Open8) and TreeSet (node capacity 4, 32) of nothrow-move and copy-only "
              "elements at sizes 0, 5, 23; positional Insert (1, n copies, range) and Remove on Array / SegmentedArray at sizes 0, 4, 9; MergeTo for 8 "
@@ -30,7 +58,16 @@ PROP = {
              "key absent / present in the destination followed by re-insertion - each with every k-th allocation, element copy and functor failure. "
              "Tree merges with a history (700 quick / 6000 thorough per tree type, node capacities 4/1, 4/2, 6/1 indexed, 32): one tree built ascending or shuffled, a burst of insertions next to the edge that faces the other tree, 0..maxR removals at that edge (drained edge leaves), the other tree of 1..6*maxN keys below or above, merge in either direction; conservation by identities, element-object count, order, no copies. "
              "Model level: the mergeto / rempred / ext / reins operations inside the C01 histories (chained-bucket part). "
+             "Arrays, model level (c04_arrfault parts 2-4, engine arrfault; see C04's rule (c)): InsertVar / Insert(Item&&) / Insert(n copies) / Insert(range) / "
+             "Remove(index,count) / Remove(filter) on Array / ArrayIntCap<2> of nothrow-move and copy-only items with and without throwing assignment, k-th fallible "
+             "step (allocation, copy, copy-only move, assignment) failing; the model predicts the complete state incl. the moved-from pattern - exact, because the "
+             "harness's item types leave their operands untouched when they throw; for other item types only count, validity and the ledger are determined (theorem). "
+             "B-trees, model level (c04_treefault, engine btreefault; see C04's rule (d)): range insert, remove-if and merge (random pairs of the containers, ordered "
+             "ranges above all keys for the fast paths, empty destinations) run with one random (fault kind, k); the model predicts threw, counts, complete contents and "
+             "node shapes of both containers and the ledger; the property's own oracle (sorted, unique, sub-multiset, conservation of source + destination + handle, "
+             "nothing lost from the destination, nothing gained by the source, element-object count) runs beside it. "
              "distinct_nontrivial = distinct (operation instance, fault kind, k) that raised."),
     "runtime_only": ["ASan/UBSan", "memory-manager ledger and element counters after every case"],
-    "not_modelled": ["faults inside a merge (sweeps only)", "stdish wrappers' element-wise migration between unequal allocators (C14 harness)"],
+    "not_modelled": ["arrays: SegmentedArray positional insert/remove under faults (sweeps only); throwing item filters; Insert for input iterators",
+                     "faults inside a hash-table merge and in merges between a B-tree and a hash table (sweeps only)", "B-trees: see C04 (Momo.BTreeF) - pools behind Node::Create, Remove(range) / multi-key Remove(key) under faults, documented exception 5 excluded from the bulk theorems", "stdish wrappers' element-wise migration between unequal allocators (C14 harness)"],
 }
